@@ -54,12 +54,14 @@ func (w *W) Bool(b bool) {
 		w.B = append(w.B, 0)
 	}
 }
-func (w *W) U8(v byte)     { w.B = append(w.B, v) }
-func (w *W) I16(v int16)   { w.B = binary.BigEndian.AppendUint16(w.B, uint16(v)) }
-func (w *W) U16(v uint16)  { w.B = binary.BigEndian.AppendUint16(w.B, v) }
-func (w *W) I24(v int32)   { w.B = append(w.B, byte(uint32(v)>>16), byte(uint32(v)>>8), byte(uint32(v))) }
-func (w *W) I32(v int32)   { w.B = binary.BigEndian.AppendUint32(w.B, uint32(v)) }
-func (w *W) I40(v int64)   { w.B = append(w.B, byte(uint64(v)>>32), byte(uint64(v)>>24), byte(uint64(v)>>16), byte(uint64(v)>>8), byte(uint64(v))) }
+func (w *W) U8(v byte)    { w.B = append(w.B, v) }
+func (w *W) I16(v int16)  { w.B = binary.BigEndian.AppendUint16(w.B, uint16(v)) }
+func (w *W) U16(v uint16) { w.B = binary.BigEndian.AppendUint16(w.B, v) }
+func (w *W) I24(v int32)  { w.B = append(w.B, byte(uint32(v)>>16), byte(uint32(v)>>8), byte(uint32(v))) }
+func (w *W) I32(v int32)  { w.B = binary.BigEndian.AppendUint32(w.B, uint32(v)) }
+func (w *W) I40(v int64) {
+	w.B = append(w.B, byte(uint64(v)>>32), byte(uint64(v)>>24), byte(uint64(v)>>16), byte(uint64(v)>>8), byte(uint64(v)))
+}
 func (w *W) I64(v int64)   { w.B = binary.BigEndian.AppendUint64(w.B, uint64(v)) }
 func (w *W) F32(v float32) { w.B = binary.BigEndian.AppendUint32(w.B, math.Float32bits(v)) }
 func (w *W) F64(v float64) { w.B = binary.BigEndian.AppendUint64(w.B, math.Float64bits(v)) }
